@@ -33,8 +33,10 @@ const retAddressArrayConst = 3
 
 func updateChar(pj *internalParsedJson, idx_in uint64) (done bool, idx uint64) {
 	if pj.indexesChan.index >= pj.indexesChan.length {
+		verifEvent(pj, 6, 0)
 		pj.indexesChan = <-pj.indexChans // Get next element from channel
 		done = pj.indexesChan.index == -1
+		verifEvent(pj, 7, uint64(pj.indexesChan.length))
 		if done {
 			return
 		}
